@@ -843,7 +843,7 @@ pub fn c13(ctx: &Ctx) -> Report {
                 ends.push(rig.bus.borrow().miso_bytes);
             }
             let total = *ends.last().unwrap();
-            let npoints = if ctx.thorough { 260 } else { 9 };
+            let npoints = if ctx.thorough { 120 } else { 9 };
             for j in 0..npoints {
                 let pos = if j < total.min(npoints / 2) && ctx.thorough { j } else { rng.below(total as u64) as usize };
                 let mode = (j % 3) as u8;
@@ -983,12 +983,12 @@ pub fn c13(ctx: &Ctx) -> Report {
             }
         }
         let values: Vec<u8> = vec![0x00, 0x01, 0x04, 0x05, 0x0B, 0xAA, 0xC0, 0x7F, 0xFE];
-        let stride = if ctx.thorough { 1 } else { 7 };
+        let stride = if ctx.thorough { 3 } else { 7 };
         for (n, (ci, pos, clean)) in informative.iter().enumerate() {
             if n % stride != (k % stride) {
                 continue;
             }
-            for v in values.iter().filter(|v| **v != *clean).skip(if ctx.thorough { 0 } else { n % 3 }).take(if ctx.thorough { 9 } else { 3 }) {
+            for v in values.iter().filter(|v| **v != *clean).skip(if ctx.thorough { n % 2 } else { n % 3 }).take(if ctx.thorough { 5 } else { 3 }) {
                 let mut rig = Rig::new(&ctx.model_path, cfg.kind, cfg.csd.clone(), cfg.timing, crc, retries, rng.next());
                 rig.bus.borrow_mut().faults.replace = vec![(*pos, *v)];
                 rep.cases += 1;
